@@ -634,12 +634,50 @@ func RBoundSet(c *core.Ctx) {
 			c.Check(fn != nil && core.BaseName(fn) == boundaryPredTable[kind], key, cj.Pos(), "`%s`: expected the word predicate %s of this boundary's dialect applied to the loop's character", types.ExprString(cj), boundaryPredTable[kind])
 		}
 	}
-	ast.Inspect(fd.Body, func(x ast.Node) bool {
-		if ifs, ok := x.(*ast.IfStmt); ok {
-			visitCond(ifs.Cond)
-		}
-		return true
-	})
+	// canBeMadeAtomic and the helpers of the package it hands its tests to: conditions of ifs,
+	// returned boolean expressions and the clauses of tagless switches
+	unitsB := []*ast.FuncDecl{fd}
+	for i := 0; i < len(unitsB) && i < 16; i++ {
+		ast.Inspect(unitsB[i].Body, func(x ast.Node) bool {
+			if call, ok := x.(*ast.CallExpr); ok {
+				if fn := core.Callee(info, call); fn != nil && fn.Pkg() == syn.Types {
+					if d, _ := p.DeclOf(fn); d != nil && d.Body != nil && strings.Contains(strings.ToLower(core.BaseName(fn)), "overlap") || (d != nil && d.Body != nil && i == 0 && strings.Contains(strings.ToLower(core.BaseName(fn)), "atomic")) {
+						dup := false
+						for _, u := range unitsB {
+							if u == d {
+								dup = true
+							}
+						}
+						if !dup {
+							unitsB = append(unitsB, d)
+						}
+					}
+				}
+			}
+			return true
+		})
+	}
+	for _, u := range unitsB {
+		ast.Inspect(u.Body, func(x ast.Node) bool {
+			switch y := x.(type) {
+			case *ast.IfStmt:
+				visitCond(y.Cond)
+			case *ast.ReturnStmt:
+				for _, r := range y.Results {
+					if isBoolExpr(info, r) {
+						visitCond(r)
+					}
+				}
+			case *ast.CaseClause:
+				for _, e := range y.List {
+					if isBoolExpr(info, e) {
+						visitCond(e)
+					}
+				}
+			}
+			return true
+		})
+	}
 	if n == 0 {
 		c.Anchor("boundary arms in canBeMadeAtomic")
 		return
